@@ -256,6 +256,7 @@ func runC02(c *Ctx) {
 
 func runC03(c *Ctx) {
 	defer runC03Relaxed(c)
+	defer c03SubsetEvaluators(c)
 	n, per := 3000, 12
 	if c.Thorough {
 		n, per = 20000, 0
